@@ -28,15 +28,15 @@ CS_CODE = {None: 0, "0": 1, "U": 2}
 CS_NAME = {0: None, 1: "0", 2: "U"}
 COLOR_IDX = {16: 0, 1: 1, 88: 2, 256: 3, 2 ** 24: 4}
 
-BLANK = (32, 1, 0, DEF_ATTR)          # cell = (code point, width, charset, attr); continuation half = (-1, 0, cs, attr)
+BLANK = (32, 1, 0, DEF_ATTR, ())      # cell = (code point, width, charset, attr, combining marks); continuation half = (-1, 0, cs, attr, ())
 GARBAGE_ATTR = (1, 5, 0, 0, 1, 3, 0, 0, F_BOLD | F_UNDER | F_STRIKE)
 
 
 def scramble_row(cols, kind):
     """deterministic garbage put on the terminal by a resize / a scrambling clear (same in TermRef.v)"""
-    g = (35, 1, 0, GARBAGE_ATTR)
-    w1 = (19990, 2, 0, GARBAGE_ATTR)
-    w2 = (-1, 0, 0, GARBAGE_ATTR)
+    g = (35, 1, 0, GARBAGE_ATTR, ())
+    w1 = (19990, 2, 0, GARBAGE_ATTR, ())
+    w2 = (-1, 0, 0, GARBAGE_ATTR, ())
     row = []
     if kind == 2 and cols > 0:
         row.append(g)
@@ -75,16 +75,16 @@ class RefTerm:
         out = []
         prev_wide = False
         for i, c in enumerate(row):
-            cp, w, cs, at = c
+            cp, w, cs, at, _comb = c
             if w == 0:
-                out.append(c if prev_wide else (32, 1, cs, at))
+                out.append(c if prev_wide else (32, 1, cs, at, ()))
                 prev_wide = False
             elif w == 2:
                 if i + 1 < len(row) and row[i + 1][1] == 0:
                     out.append(c)
                     prev_wide = True
                 else:
-                    out.append((32, 1, cs, at))
+                    out.append((32, 1, cs, at, ()))
                     prev_wide = False
             else:
                 out.append(c)
@@ -97,7 +97,18 @@ class RefTerm:
         self.grid.append([BLANK] * self.cols)
 
     def put(self, cp, w):
-        if w == 0 or w > self.cols:
+        if w == 0:
+            # a zero-width (combining) character joins the character before the cursor and does not advance;
+            # with nothing before the cursor on this line it is dropped
+            idx = self.x if self.pending else self.x - 1
+            row = self.grid[self.y]
+            if 0 <= idx < len(row) and row[idx][1] == 0:
+                idx -= 1
+            if 0 <= idx < len(row):
+                c = row[idx]
+                self.grid[self.y] = row[:idx] + [(c[0], c[1], c[2], c[3], c[4] + (cp,))] + row[idx + 1:]
+            return
+        if w > self.cols:
             return
         if self.pending or self.x + w > self.cols:
             self.pending = False
@@ -108,7 +119,7 @@ class RefTerm:
                 self.y += 1
         row = self.grid[self.y]
         cs = self.cs()
-        cells = [(cp, w, cs, self.attr)] + ([(-1, 0, cs, self.attr)] if w == 2 else [])
+        cells = [(cp, w, cs, self.attr, ())] + ([(-1, 0, cs, self.attr, ())] if w == 2 else [])
         if self.irm:
             row = (row[:self.x] + cells + row[self.x:])[:self.cols]
         else:
@@ -195,7 +206,7 @@ class RefTerm:
             self.pending = False
         elif final == "K" and not nums:
             bg = self.attr[4:8] if self.bce else DEF_COL
-            er = (32, 1, 0, DEF_COL + bg + (0,))
+            er = (32, 1, 0, DEF_COL + bg + (0,), ())
             row = self.grid[self.y]
             self.grid[self.y] = self.fix_split(row[:self.x] + [er] * (self.cols - self.x))
         elif final in "hl" and params == "4":
@@ -265,9 +276,10 @@ class RefTerm:
                int(self.irm), int(self.so), int(self.ibmpc), int(self.g1)]
         out += list(self.attr)
         for row in self.grid:
-            for cp, w, cs, at in row:
+            for cp, w, cs, at, comb in row:
                 out += [cp, w, cs]
                 out += list(at)
+                out += [len(comb)] + list(comb)
         return out
 
 
@@ -751,21 +763,28 @@ def expected_cells(row, enc, scr, wof):
                 o, ch = 63, "?"
             w = wof(ch)
             if w == 0:
+                # joins the character before it in the row (also across runs); dropped at the start of a row
+                k = len(out) - 1
+                if k >= 0 and out[k][1] == 0:
+                    k -= 1
+                if k >= 0:
+                    c = out[k]
+                    out[k] = (c[0], c[1], c[2], c[3], c[4] + (o,))
                 continue
-            out.append((o, w, CS_CODE[cs], at))
+            out.append((o, w, CS_CODE[cs], at, ()))
             if w == 2:
-                out.append((-1, 0, CS_CODE[cs], at))
+                out.append((-1, 0, CS_CODE[cs], at, ()))
     return out
 
 
 def visually_equal(exp, got):
     """VISUAL cell equality: on a blank only what can be seen on a blank is compared"""
-    ecp, ew, ecs, eat = exp
-    gcp, gw, gcs, gat = got
-    if (ecp, ew) != (gcp, gw):
+    ecp, ew, ecs, eat, ecomb = exp
+    gcp, gw, gcs, gat, gcomb = got
+    if (ecp, ew, ecomb) != (gcp, gw, gcomb):
         return False
     vis = F_UNDER | F_STAND | F_STRIKE
-    if ecp == 32:
+    if ecp == 32 and not ecomb:
         if (eat[8] & vis) != (gat[8] & vis):
             return False
         if eat[8] & F_STAND:          # reverse video: the foreground colour is what fills the cell
@@ -775,9 +794,18 @@ def visually_equal(exp, got):
 
 
 def cellstr(c):
-    cp, w, cs, at = c
-    ch = "<cont>" if cp < 0 else repr(chr(cp))
+    cp, w, cs, at, comb = c
+    ch = "<cont>" if cp < 0 else repr(chr(cp) + "".join(chr(k) for k in comb))
     return "%s cs=%s fg=%s bg=%s flags=%d" % (ch, CS_NAME.get(cs), list(at[0:4]), list(at[4:8]), at[8])
+
+
+def comb_first_run(row, enc, wof):
+    """some run of the row starts with a zero-width character"""
+    for _a, _cs, run in row:
+        t = run.decode(enc, "replace")
+        if t and wof(t[0]) == 0:
+            return True
+    return False
 
 
 def is_blank_row(row):
@@ -976,8 +1004,12 @@ class C04(core.Check):
                   "blank, cursor, no scrolling, for every history of draws, clear() and frames abandoned by a mid-draw SIGWINCH "
                   "(partial_history_paints, partial_history_keeps_sync); (html_exact) the HTML back-end's "
                   "spans carry exactly the canvas text row by row with at most one one-character span swapped, for every "
-                  "canvas and cursor.  NOT proved, statement kept (draw_paints_any_text_full): zero-width and C0 control "
-                  "characters.  Correspondence/oracle only: everything above on the real code (exact token streams, all "
+                  "canvas and cursor; (visual_colours) the colour of every kind (true, high, basic, default) spelled out; "
+                  "(row_cells_is_threaded) zero-width (combining) characters are covered by all of the above except as the "
+                  "first character of a run - the reference terminal joins them to the character before the cursor.  "
+                  "REFUTED with a machine-checked witness replayed on the implementation (known finding): "
+                  "draw_paints_any_text_full (a run that starts with a combining character on the bottom row loses the "
+                  "mark); C0 control characters stay excluded (reported defect: measured as 0 columns, painted as '?').  Correspondence/oracle only: everything above on the real code (exact token streams, all "
                   "five colour depths, utf-8/ascii/iso8859-1, widgets), partial display with an origin below row 0, and for "
                   "the HTML back-end the escaping, the colour strings and the position of the highlighted cell.")
     level_note = ("Trusted: Coq kernel; the hand-written model (tied by exact correspondence, not proved against Python); "
@@ -1005,7 +1037,8 @@ class C04(core.Check):
         "Python oracle (RefTerm, expectations, HTML parser) in harness/props/c04.py",
     ]
     assumptions = [
-        "the terminal measures character widths like urwid (str_util.get_char_width); combining characters are ignored by the reference terminal",
+        "the terminal measures character widths like urwid (str_util.get_char_width); a zero-width character joins the character "
+        "before the cursor (the last one written in the pending-wrap state) and is dropped at the start of a line",
         "canvas rows are exactly maxcol columns wide and runs are non-empty; canvas text has no C0 control characters "
         "(urwid measures them as zero-width but paints '?': observed, not judged); ascii mode carries only ASCII bytes",
         "under UTF-8 the canvas carries no charset flags",
@@ -1300,18 +1333,20 @@ class C04(core.Check):
                     else:
                         ok = visually_equal(e, got)
                     if not ok:
-                        kind = "text" if (e[0], e[1]) != (got[0], got[1]) or text_only else (
-                            "charset" if visually_equal(e, (got[0], got[1], e[2], got[3])) else "attributes")
+                        kind = "text" if (e[0], e[1], e[4]) != (got[0], got[1], got[4]) or text_only else (
+                            "charset" if visually_equal(e, (got[0], got[1], e[2], got[3], got[4])) else "attributes")
                         bad.setdefault(kind, (x, y, e, got))
             for kind in ("text", "attributes", "charset"):
                 if kind in bad:
                     x, y, e, g = bad[kind]
                     where = "last row" if y == rows - 1 else "row"
                     t2 = tag
+                    if kind == "text" and y == rows - 1 and comb_first_run(content[y], case["enc"], wof):
+                        t2 += " [bottom row has a run that starts with a combining character]"
                     if kind == "charset" and ibmpc_stuck and g[2] == 2:
                         t2 += " [IBMPC charset left on by an earlier frame]"
                     msgs.append(t2 + ": %s cell (%d,%d) shows %s, canvas has %s [%s]" % (where, x, y, cellstr(g), cellstr(e), kind))
-            if [m for m in msgs if "IBMPC charset left on" not in m]:
+            if [m for m in msgs if "IBMPC charset left on" not in m and "starts with a combining character" not in m]:
                 return msgs
             cur = rec["cursor"]
             if cur is None:
@@ -1836,7 +1871,8 @@ class C04(core.Check):
         return any(f["toks"] for f in res["frames"])
 
     def signature(self, case, msg):
-        for tag in ("[partial display after a frame abandoned by SIGWINCH]",
+        for tag in ("[bottom row has a run that starts with a combining character]",
+                    "[partial display after a frame abandoned by SIGWINCH]",
                     "[partial display after a frame without cursor]", "[IBMPC charset left on by an earlier frame]",
                     "raised KeyError for an undefined palette name"):
             if tag in msg:
